@@ -18,7 +18,11 @@ using namespace rkcommon::math;
 typedef RKV_SCALAR S;
 
 typedef vec_t<S, 2> V2;
+#ifdef RKV_PADDED
+typedef vec_t<S, 3, true> V3;   // padded 3-vector (vec3fa): 4 lanes, the 4th is not a component
+#else
 typedef vec_t<S, 3> V3;
+#endif
 typedef LinearSpace2<V2> L2;
 typedef LinearSpace3<V3> L3;
 typedef AffineSpaceT<L3> A3;
@@ -272,7 +276,7 @@ ID(P10_rotate_about__lhs)(const S *in, S *out)
 ID(P10_rotate_about__rhs)(const S *in, S *out)
 {
   V3 p(in[0], in[1], in[2]), u(in[3], in[4], in[5]), x(in[7], in[8], in[9]);
-  put(out, L3::rotate(u, in[6]) * (x - p) + p);
+  put(out, L3::rotate(u, in[6]) * V3(x - p) + p);
 }
 
 // note: AffineSpaceT::rotate(p, quaternion) cannot be instantiated at all (`translate(+p) * L(q)` has no viable
